@@ -371,10 +371,28 @@ type sched struct {
 	dbgN          int
 	globals       map[string]sVal // driver-supplied values of package-level variables (pointer to their cell)
 	dbgLabel      string
+	// package initialiser: an operation that cannot be followed does not end the run; the variables that are stored from
+	// then on are unknown (reading one of them fails in the function that does)
+	lenient       bool
+	soft          []string
+	softAt        int         // step of the first operation that was not followed (0: none)
+	cellStoreStep map[int]int // heap cell -> step of its last store during the initialiser
 }
 
 func (e *sched) fail(format string, a ...interface{}) {
 	msg := fmt.Sprintf(format, a...)
+	if e.lenient {
+		if e.softAt == 0 {
+			e.softAt = e.steps
+			if e.softAt == 0 {
+				e.softAt = 1
+			}
+		}
+		if len(e.soft) < 4 {
+			e.soft = append(e.soft, msg)
+		}
+		return
+	}
 	for _, x := range e.errs {
 		if x == msg {
 			return
